@@ -486,6 +486,30 @@ func libraryTargets(p *Program, g *ssa.Function) []*ssa.Function {
 			out = append(out, h)
 		}
 	}
+	// method expressions / function values handed on as arguments ((*T).M passed to a helper that calls it)
+	for _, c := range callsIn(g) {
+		for _, a := range c.Common().Args {
+			for {
+				if ct, isCT := a.(*ssa.ChangeType); isCT {
+					a = ct.X
+					continue
+				}
+				break
+			}
+			fn, ok := a.(*ssa.Function)
+			if !ok {
+				continue
+			}
+			if fn.Synthetic != "" {
+				if obj, ok := fn.Object().(*types.Func); ok {
+					if m := p.Prog.FuncValue(obj); m != nil {
+						fn = m
+					}
+				}
+			}
+			out = append(out, fn)
+		}
+	}
 	instrsOf(g, func(_ *ssa.BasicBlock, in ssa.Instruction) {
 		mc, ok := in.(*ssa.MakeClosure)
 		if !ok {
